@@ -72,6 +72,9 @@ Definition approx_zero4 (x : f32) : bool :=
   | _ => false
   end.
 
+(* f32::is_finite *)
+Definition ffinite (x : f32) : bool := is_finite x.
+
 Definition is_pzero (x : f32) : bool := match x with B754_zero false => true | _ => false end.
 
 Fixpoint zrange (n : nat) (s : Z) : list Z :=
